@@ -10,7 +10,7 @@ From Coq Require Import Permutation.
 (* ---------- the model has the shape of the code (table regenerated from /repo on every run) ---------- *)
 (* LintContext hashes (lint_kind, suggestions, message, priority, tokens); from_lint uses the windows and
    the order that `context` models and does not blank twin_loc; FatToken = (content, kind), Quote carries
-   twin_loc, every TokenKind variant has a constructor in `tkind`; the JSON key is the model's.
+   twin_loc, Number its four fields, every TokenKind variant has a constructor in `tkind`; the JSON key is the model's.
    THIS THEOREM BREAKS when fixes/F12.diff or fixes/F13.diff is applied: `context` is then no longer
    the code, and the _refuted theorems below have to move to History (DESIGN.md, section 8). *)
 Theorem C14_model_has_the_shape_of_the_code :
@@ -20,6 +20,7 @@ Theorem C14_model_has_the_shape_of_the_code :
   context_v source_variant = context /\
   fat_token_fields = ["content"; "kind"]%string /\ fat_token_derives_hash = true /\
   quote_fields = ["twin_loc"]%string /\ quote_derives_hash = true /\ token_kind_derives_hash = true /\
+  number_fields = ["value"; "suffix"; "radix"; "precision"]%string /\ number_derives_hash = true /\
   token_kind_variants = ["Word"; "Punctuation"; "Decade"; "Number"; "Space"; "Newline"; "EmailAddress"; "Url";
                          "Hostname"; "Unlintable"; "ParagraphBreak"; "Regexish"]%string /\
   ignored_json_key = key_text /\ ignored_derives_serde = true.
@@ -31,6 +32,7 @@ Check C14_model_has_the_shape_of_the_code :
   context_v source_variant = context /\
   fat_token_fields = ["content"; "kind"]%string /\ fat_token_derives_hash = true /\
   quote_fields = ["twin_loc"]%string /\ quote_derives_hash = true /\ token_kind_derives_hash = true /\
+  number_fields = ["value"; "suffix"; "radix"; "precision"]%string /\ number_derives_hash = true /\
   token_kind_variants = ["Word"; "Punctuation"; "Decade"; "Number"; "Space"; "Newline"; "EmailAddress"; "Url";
                          "Hostname"; "Unlintable"; "ParagraphBreak"; "Regexish"]%string /\
   ignored_json_key = key_text /\ ignored_derives_serde = true.
